@@ -51,6 +51,8 @@ def run(ctx):
     from .pitfalls import rule_groupby_sorted, rule_single_use_iterators
     ctx.do(rule_groupby_sorted, "C07.iterator-pitfalls", ("stix2.markings",))
     ctx.do(rule_single_use_iterators, "C07.iterator-pitfalls", ("stix2.markings",))
+    from .pitfalls import rule_loop_flags_monotone
+    ctx.do(rule_loop_flags_monotone, "C07.iterator-pitfalls", ("stix2.markings",))
     from .hidden_state import rule_no_hidden_state
     ctx.do(rule_no_hidden_state, "C07.history-independence")
 
